@@ -1634,6 +1634,10 @@ class Interp:
         if isinstance(callee, Builtin):
             r = self.call_builtin(callee.name, args, kwargs, node, frame)
             if r is not NotImplemented:
+                if callee.name in ("int", "float") and args and not isinstance(args[0], Const) and isinstance(r, Term):
+                    # conversions of non-literals are visible to rules and may raise (when the rule says so)
+                    ev = self.emit("call", node, term=r, callee=callee, args=args, kwargs=kwargs, resolved=None, foreign=True, inlined=False, awaited=False)
+                    self.maybe_raise(ev)
                 return r
         if self.opts.get("fold_re", True):
             r = self.fold_re(callee, args, kwargs)
@@ -1864,6 +1868,8 @@ class Interp:
                 return Term("call", Builtin(name), tuple(args), (), pytype="int")
         if name == "int" and len(args) == 1 and not isinstance(args[0], Const):
             return Term("call", Builtin(name), tuple(args), (), pytype="int")
+        if name == "float" and len(args) == 1 and not isinstance(args[0], Const):
+            return Term("call", Builtin(name), tuple(args), (), pytype="float")
         if name in ("int", "float") and len(args) == 1 and isinstance(args[0], Const) and isinstance(args[0].v, (str, int, float)) and not isinstance(args[0].v, bool):
             try:
                 return Const(int(args[0].v) if name == "int" else float(args[0].v))
@@ -1912,6 +1918,8 @@ class Interp:
                 return None
             return None
         if isinstance(k, Builtin):
+            if isinstance(v, Term) and v.pytype and k.name in ("str", "int", "float", "bytes", "bool", "NoneType"):
+                return v.pytype == k.name or (k.name == "int" and v.pytype == "bool")
             if isinstance(v, Const):
                 tname = type(v.v).__name__
                 if k.name == tname:
